@@ -216,9 +216,17 @@ def pipeline(spec, pid, tier, seed, replay, keep, t0, no_evidence):
         # known findings are recognised on the raw failing case first, so that many hits of a known finding early in the
         # stream cannot crowd out a different violation; only unexplained failures are minimised (bounded number)
         unexplained = []
+        novel = []
         for (l, i, m, k, why) in failing:
             fid0 = spec.classify(l, i, why) if hasattr(spec, "classify") else None
             if fid0 and fid0 in known and known[fid0]["status"] == "known":
+                if k == "oracle" and (getopt(spec, "KNOWN_MUST_MATCH_MODEL", False) or os.environ.get("VERIF_STRICT_KNOWN") == "1") and m is not None:
+                    # the model reproduces the listed defect exactly: inside a known finding's region the implementation must still
+                    # behave as the model says; anything else is a different violation and is not suppressed
+                    cmp = getopt(spec, "compare", None)
+                    if not (cmp(l, i, m) if cmp else (i == m)):
+                        novel.append((l, i, m, why, fid0))
+                        continue
                 if k == "oracle":
                     res.oracle_failures += 1
                     if fid0 not in known_printed:
@@ -229,6 +237,13 @@ def pipeline(spec, pid, tier, seed, replay, keep, t0, no_evidence):
                     res.divergences += 1
                 continue
             unexplained.append((l, i, m, k, why))
+        for (l, i, m, why, fid0) in novel[:3]:
+            res.oracle_failures += 1
+            nrep += 1
+            path = write_replay(pid, seed, nrep, {"property": pid, "kind": "oracle", "case": l, "impl": i, "model": m, "why": why, "finding": None, "seed": seed, "tier": tier,
+                                                  "note": "the input lies in the region of known finding %s, but the implementation does not behave as the model of that defect says: a different violation" % fid0})
+            res.violations.append(path)
+            print("VIOLATION property=%s replay=%s" % (pid, path))
         for (l, i, m, k, why) in unexplained[:getopt(spec, "MAX_REPORT", 40)]:
             lm = minimise(spec, harness, model, l, k, known=known)
             ii, mm = run_pair(spec, harness, model, [lm])
